@@ -451,6 +451,8 @@ func (cur *FieldMask) addPath(path string, curDesc *thrift_reflection.TypeDescri
 
 	// for scalar type, isAll is always true
 	cur.isAll = true
+	// a complete path covers everything below this node: drop what earlier, deeper paths settled here
+	cur.all, cur.fdMask, cur.intMask, cur.strMask = nil, nil, nil, nil
 	return nil
 }
 
